@@ -404,22 +404,45 @@ func LoadingProperty(impl UniImpl) Property {
 					feats = append(feats, "has-dependency-only-package")
 				}
 				c.Case(ls, Meta{Nontrivial: len(steps) > 0 || len(req) < len(prog.Pkgs), Features: feats})
-				if i%10 == 0 {
+				if i%4 == 0 {
 					// a missing / broken requested package
 					bad := &Program{Module: prog.Module, V2: prog.V2, Pkgs: append([]*ProgPkg(nil), prog.Pkgs...)}
 					var ls2 []string
 					ls2 = append(ls2, Line("uni", "reset", variant))
 					badReq := "example.com/m/doesnotexist"
-					if r.Bool() {
+					feat := "missing"
+					var badSteps [][]string
+					badInitial := append([]string(nil), initial...)
+					switch r.Intn(4) {
+					case 0:
+						badInitial = append(badInitial, badReq)
+					case 1: // does not parse, requested with the others
 						bp := &ProgPkg{Path: "example.com/m/zbroken", Name: "zbroken", File: "types.go", Source: "package zbroken\n\ntype T struct {\n"}
 						bad.Pkgs = append(bad.Pkgs, bp)
-						badReq = bp.Path
+						badInitial = append(badInitial, bp.Path)
+						feat = "broken-initial"
+					case 2: // does not parse, requested in a later incremental load
+						bp := &ProgPkg{Path: "example.com/m/zbroken", Name: "zbroken", File: "types.go", Source: "package zbroken\n\ntype T struct{}\n\nfunc (\n\ntype Lost int\n"}
+						bad.Pkgs = append(bad.Pkgs, bp)
+						badSteps = [][]string{{bp.Path}}
+						feat = "broken-incremental"
+					case 3: // does not parse, first seen as a dependency, requested later
+						bp := &ProgPkg{Path: "example.com/m/zbroken", Name: "zbroken", File: "types.go", Source: "package zbroken\n\ntype T struct{}\n\nfunc (\n\ntype Lost int\n"}
+						ip := &ProgPkg{Path: "example.com/m/zimp", Name: "zimp", File: "types.go", Imports: []string{bp.Path}, Source: "package zimp\n\nimport zbroken \"example.com/m/zbroken\"\n\ntype U struct{ F zbroken.T }\n"}
+						bad.Pkgs = append(bad.Pkgs, bp, ip)
+						badInitial = append(badInitial, ip.Path)
+						badSteps = [][]string{{bp.Path}}
+						feat = "broken-dependency-then-requested"
 					}
 					for _, p := range bad.Pkgs {
 						ls2 = append(ls2, Line("uni", "src", Hex(p.Path), Hex(p.Name), Hex(p.File), HexList(p.Imports), Hex(p.Source)))
 					}
-					ls2 = append(ls2, Line("uni", "expecterror"), Line("uni", "load", HexList(append(append([]string(nil), initial...), badReq))))
-					c.Case(ls2, Meta{Nontrivial: true, NoModel: true, Features: []string{"bad-requested-package"}})
+					ls2 = append(ls2, Line("uni", "expecterror"), Line("uni", "load", HexList(badInitial)))
+					for _, st := range badSteps {
+						ls2 = append(ls2, Line("uni", "loadto", HexList(st)))
+					}
+					_ = badReq
+					c.Case(ls2, Meta{Nontrivial: true, NoModel: true, Features: []string{"bad-requested-package", "bad:" + feat}})
 				}
 			}
 		},
